@@ -26,6 +26,8 @@ def run(tier):
     for cfgname in cfgs:
         prog = Program.load(which=('SRC',), cfg=cfgname)
         eff = PathEffects(prog)
+        from ..rules import spblas as _sb
+        _sb.conjugate_branch_rule(chk, 'C05.conj', prog, cfgname)
         kernels.run_factor(chk, 'C05.kern', prog, cfgname)
         from ..rules import r12_supernodal as _r12
         chk.clause('C05.kern.index', 'abstract interpretation of the supernodal update kernels in a polynomial index domain: every access to the supernode block is the entry the algebra needs')
